@@ -7,6 +7,7 @@
 package c08
 
 import (
+	"os"
 	"fmt"
 	"math/rand"
 	"path/filepath"
@@ -424,7 +425,7 @@ func (e *env) e2eRaw(p e2eParams) {
 // ---------------------------------------------------------------------------
 // (iii) Go client: what Recovered() reports across reconnects
 
-var dbg = false
+var dbg = os.Getenv("VERIF_DBG") == "1"
 
 func (e *env) goClient() {
 	const W, tol = 300 * time.Millisecond, 10 * time.Millisecond
@@ -443,8 +444,7 @@ func (e *env) goClient() {
 	c := m.Socket("/", nil)
 	var mu sync.Mutex
 	connects := 0
-	// the trailing string is where the server puts the packet's offset
-	c.OnEvent("ev", func(n int, x int, off string) {})
+	c.OnEvent("ev", func(n int, x int) {}) // (the offset the server appends is not an argument of the handler)
 	c.OnConnect(func() { mu.Lock(); connects++; mu.Unlock() })
 	if dbg {
 		m.OnError(func(err error) { fmt.Println("DBG mgr error:", err) })
